@@ -22,7 +22,7 @@ ENUMS = [['vlab.tasks_core', 'Color', 'RED'], ['vlab.tasks_core', 'Color', 'GREE
          ['vlab.tasks_core', 'Mode', 'A'], ['vlab.tasks_core', 'Mode', 'RED'], ['vlab.tasks_core', 'Mode', 'EMPTY'],
          ['vlab.tasks_core', 'Perm', 'R'], ['vlab.tasks_core', 'Perm', 'W']]
 TASKS = [['vlab.tasks_core', 'VA'], ['vlab.tasks_core', 'VB'], ['vlab.tasks_core', 'VAX'],
-         ['vlab.tasks_alt', 'VA'], ['vlab.tasks_core', 'VJ'], ['vlab.tasks_core', 'VP']]
+         ['vlab.tasks_alt', 'VA'], ['vlab.tasks_core', 'VJ'], ['vlab.tasks_core', 'VP'], ['vlab.tasks_core', 'VU']]
 KEYS = ['a', 'b', 'k', '', 'é', 'name', 'is_task', 'x.y', '0', 'p']
 UNSUPPORTED = ['set', 'bytes', 'object', 'complex', 'intkey', 'nonekey', 'tuplekey', 'frozenset', 'bytearray',
                'function', 'type']
@@ -79,12 +79,19 @@ def realize(desc):
         return frozendict({k: realize(v) for k, v in desc['fd']})
     if 'task' in desc:
         m, c, p, q = desc['task']
-        return getattr(importlib.import_module(m), c)(p=realize(p), q=realize(q))
+        return make_task(m, c, realize(p), realize(q))
     if 'u' in desc:
         return make_unsupported(desc['u'])
     if 'm' in desc:
         return make_marker(desc)
     raise ValueError(desc)
+
+
+def make_task(module, cls, p, q):
+    T = getattr(importlib.import_module(module), cls)
+    if cls == 'VU':
+        return T(p=p, _q=q)
+    return T(p=p, q=q)
 
 
 def make_unsupported(kind):
